@@ -679,11 +679,14 @@ func (sd *SpecAnalyser) compareSchema(location DifferenceLocation, schema1, sche
 	}
 
 	if isRefType(schema1) {
-		key := schemaLocationKey(location)
+		// a $ref is not followed again while it is being compared further up the same path (circular
+		// definitions); sibling properties are compared each in their own right
+		key := schemaLocationKey(location) + "|" + schema1.Ref.String()
 		if _, ok := sd.schemasCompared[key]; ok {
 			return
 		}
 		sd.schemasCompared[key] = struct{}{}
+		defer delete(sd.schemasCompared, key)
 		schema1, _ = sd.schemaFromRef(getRef(schema1), &sd.Definitions1)
 	}
 
